@@ -53,9 +53,9 @@ def cases(tier, seed):
     drives = ("field", "current", "eps_t", "eps_t_loop")
     if tier == "quick":
         recs = [("field", 0.5, 10.0, 5.79), ("field", 1.0, 1.0, 1.0), ("current", 0.5, 10.0, 5.79), ("current", 2.0, 1.0, 5.79), ("field", 2.0, 10.0, 1.0), ("current", 1.0, 1.0, 1.0),
-                ("eps_t", 0.5, 10.0, 5.79), ("eps_t_loop", 1.0, 1.0, 5.79)]
+                ("eps_t", 0.5, 10.0, 5.79), ("eps_t_loop", 1.0, 1.0, 5.79), ("screen", 0.25, 10.0, 5.79), ("screen", 0.5, 1.0, 1.0)]
     else:
-        recs = list(itertools.product(drives, (0.5, 1.0, 2.0), (10.0, 1.0), (5.79, 1.0)))
+        recs = list(itertools.product(drives, (0.5, 1.0, 2.0), (10.0, 1.0), (5.79, 1.0))) + list(itertools.product(("screen",), (0.125, 0.25, 0.5), (10.0, 1.0), (5.79, 1.0)))
     for drive, dti, g, u in recs:
         out.append(dict(fam="recorded", drive=drive, dt_init=dti, gamma=g, u=u))
     return out
@@ -297,7 +297,7 @@ def run_recorded(case):
     res = CaseResult()
     res.key = case_key(case)
     dev = drivers.tiny(2, terminals=(case["drive"] == "current"))
-    dev = tdgl.Device(dev.name, layer=tdgl.Layer(coherence_length=1.0, london_lambda=2.0, thickness=0.1, gamma=case["gamma"], u=case["u"]),
+    dev = tdgl.Device(dev.name, layer=tdgl.Layer(coherence_length=1.0, london_lambda=(0.6 if case["drive"] == "screen" else 2.0), thickness=0.1, gamma=case["gamma"], u=case["u"]),
                       film=dev.film, terminals=list(dev.terminals), probe_points=dev.probe_points)
     dev.mesh = drivers.tiny(2, terminals=(case["drive"] == "current")).mesh
     kw = {"applied_vector_potential": 1.6} if case["drive"] != "current" else {"applied_vector_potential": 0.8, "terminal_currents": {"source": 12.0, "drain": -12.0}}
@@ -317,6 +317,11 @@ def run_recorded(case):
         kw["disorder_epsilon"] = eps_user
     opts = tdgl.SolverOptions(solve_time=4.0, dt_init=case["dt_init"], dt_max=2 * case["dt_init"], adaptive=True, adaptive_window=2,
                               adaptive_time_step_multiplier=0.5, max_solve_retries=14, progress_interval=10**9)
+    if case["drive"] == "screen":
+        # with screening the update iterates on the induced vector potential; the step it answers is still one update from (psi^n, mu^n)
+        kw = {"applied_vector_potential": 0.9}
+        opts.include_screening = True
+        opts.screening_tolerance = 1e-3
     solver = tdgl.TDGLSolver(dev, opts, **kw)
     orig = tdgl.TDGLSolver.solve_for_psi_squared
     calls = []
@@ -346,9 +351,18 @@ def run_recorded(case):
     clock = {"time": None}
     orig_update = solver.update
 
+    updates = []
+
     def rec_update(state, running_state, dt, **kw_):
         clock["time"] = float(state["time"])  # the time the caller attaches to this step
-        return orig_update(state, running_state, dt, **kw_)
+        pin, mun = np.array(kw_["psi"]), np.array(kw_["mu"])
+        n0 = len(steps)
+        out = orig_update(state, running_state, dt, **kw_)
+        # the update as a whole: (psi^n, mu^n) -> psi^{n+1} with the time step it reports and the link variables it ended with
+        lap = np.asarray(solver.operators.psi_laplacian @ pin)
+        x_rep = steps[-1][6] if len(steps) > n0 else np.abs(np.array(out[1])) ** 2  # the squared modulus reported with the last psi update of this step
+        updates.append((pin, mun, np.array(solver.epsilon) * np.ones(len(pin)), lap, np.array(out[1]), float(out[0]), len(steps) - n0, x_rep))
+        return out
 
     solver.update = rec_update
     try:
@@ -398,6 +412,21 @@ def run_recorded(case):
         check_answer(res, p_out[keep], x_out[keep], psi[keep], mu[keep], eps[keep], lap[keep], g, u, dt_out, {k: np.asarray(v)[keep] for k, v in ref.items()}, dict(ctx, step_level=True))
         if len(res.violations) > nv:
             res.violations[-1]["detail"].update(dt_in=dt_in, dt_reported=dt_out, calls=ncalls)
+    for psi, mu, eps, lap, p_out, dt_out, niter, x_out in updates:
+        res.count("recorded_updates")
+        if niter > 1:
+            res.count("recorded_updates_with_screening_iterations")
+        ref = psi_update(psi, mu, eps, g, u, dt_out, lap)
+        b = np.asarray(ref["b"], float)
+        disc = np.asarray(ref["disc"], float)
+        keep = disc > TOLERANCES["zone"] * b * b
+        if not keep.all():
+            res.count("recorded_updates_near_threshold")
+        nv = len(res.violations)
+        check_answer(res, p_out[keep], x_out[keep], psi[keep], mu[keep], eps[keep], lap[keep], g, u, dt_out, {k: np.asarray(v)[keep] for k, v in ref.items()},
+                     dict(gamma=g, u=u, dt=float(f"{dt_out:.3g}"), update_level=True, screening=bool(case["drive"] == "screen")))
+        if len(res.violations) > nv:
+            res.violations[-1]["detail"].update(dt_reported=dt_out, psi_updates_inside_this_step=niter)
     res.nontrivial = len(calls) > 5
     res.outcome = "recorded"
     return res
